@@ -1125,7 +1125,7 @@ def struct_eq(ex, a, b):
     raise Unsupported('structural == of %r and %r' % (a, b))
 
 
-@model(r'^<(std::cmp::Ordering|Option<std::cmp::Ordering>|std::option::Option<std::cmp::Ordering>) as PartialEq(<.*>)?>::eq$')
+@model(r'^<(std::cmp::Ordering|(std::option::)?Option<.*>) as PartialEq(<.*>)?>::eq$')
 def m_plain_eq(ex, callee, args):
     return struct_eq(ex, args[0], args[1])
 
